@@ -628,6 +628,11 @@ func (f *formatter) writeMessageLiteralForArray(
 	lastElement bool,
 ) {
 	if f.maybeWriteCompactMessageLiteral(messageLiteralNode, true) {
+		if lastElement {
+			// There is no trailing comma that ends the line, and the
+			// closing ']' of the array belongs on its own line.
+			f.P("")
+		}
 		return
 	}
 	var elementWriterFunc func()
